@@ -503,10 +503,8 @@ func (p *parser) parseForExpression() ast.Expression {
 
 	expression.Block = p.parseBlockStatement()
 
-	if p.curTokenIs(token.RBRACE) {
-		p.nextToken()
-	}
-
+	// the current token stays on the closing brace, as after an if or a
+	// function block: the caller advances past it
 	return expression
 }
 
